@@ -139,6 +139,21 @@ def always_followed_by(fnode, a, b):
     return cfg.postdominates(nb, na)
 
 
+def never_after(fnode, a, b):
+    """Whenever a and b both execute in one iteration of their innermost common loop (or in the function),
+    a comes first: a can reach b, and b cannot reach a without passing that loop's head."""
+    cfg = build_cfg(fnode)
+    na, nb = cfgnode(fnode, a), cfgnode(fnode, b)
+    if na.id == nb.id:
+        return _before_in_stmt(a, b)
+    la, lb = cfg.loop_of.get(na.id, []), cfg.loop_of.get(nb.id, [])
+    common = [x for x in la if x in lb]
+    avoid = [common[-1]] if common else []
+    if not cfg.reaches(na, nb, avoiding=avoid):
+        return False
+    return not cfg.reaches(nb, na, avoiding=avoid)
+
+
 def ordered(fnode, a, b):
     """a before b on all paths to b, and b after a on all normal paths from a: a ≺ b."""
     return strictly_before(fnode, a, b) and always_followed_by(fnode, a, b)
